@@ -27,6 +27,7 @@ package cache_test
 import (
 	"bytes"
 	"crypto"
+	stded "crypto/ed25519"
 	"crypto/sha512"
 	"encoding/binary"
 	"fmt"
@@ -45,6 +46,7 @@ import (
 	"golang.org/x/crypto/sha3"
 	"pgregory.net/rapid"
 	h "verifh"
+	ref "verifref"
 )
 
 var c18Kinds = []string{"sign", "verify", "vexp", "vcache", "batch", "keygen", "x25519", "x25519base", "mulbase", "srsign", "srverify", "h2c", "merlin"}
@@ -65,7 +67,14 @@ type c18WCase struct {
 	Procs    int
 	CacheCap int
 	Seed     uint64
-	G        [][]c18Op
+	// Cold: the goroutines' calls are the FIRST calls into the library made by
+	// the process (material comes from the standard library, expected results
+	// are computed afterwards), so that a package-level table or constant that
+	// is initialised lazily instead of "only during init" is initialised under
+	// concurrency.  Warm: expected results first, valid sr25519 signatures
+	// available as inputs.
+	Cold bool
+	G    [][]c18Op
 }
 
 func c18GenOp(t *rapid.T) c18Op {
@@ -91,6 +100,7 @@ func c18GenWorkload(t *rapid.T) c18WCase {
 	c.Procs = rapid.SampledFrom([]int{1, 2, 4, 4, 16, 16}).Draw(t, "procs")
 	c.CacheCap = rapid.IntRange(1, 3).Draw(t, "cachecap")
 	c.Seed = rapid.Uint64().Draw(t, "seed")
+	c.Cold = rapid.IntRange(0, 2).Draw(t, "cold") == 0
 	ng := rapid.SampledFrom([]int{2, 2, 3, 3, 4, 4, 5, 6, 8, 10, 12, 16}).Draw(t, "goroutines")
 	maxOps := 6
 	if ng > 8 {
@@ -222,6 +232,11 @@ func c18CheckWorkload(c c18WCase) h.Result {
 		r.Class("goroutines:9-16")
 	}
 	r.Class(fmt.Sprintf("procs:%d", c.Procs))
+	if c.Cold {
+		r.Class("cold(first library calls are concurrent)")
+	} else {
+		r.Class("warm(sequential pass first)")
+	}
 	nt := false
 	for o, n := range c18SharedUse(c) {
 		if n >= 2 {
@@ -338,17 +353,22 @@ func (m *c18Mat) msg(mi, variant int) []byte {
 	return m.msgs[mi]
 }
 
+// c18NewMat builds the inputs.  Ed25519 keys and signatures (pure, ctx, ph) come
+// from the standard library's crypto/ed25519, the undecodable key from the
+// reference decoder: with Cold set nothing here calls the library under test.
 func c18NewMat(c c18WCase) *c18Mat {
 	m := &c18Mat{seed: c.Seed, sigs: map[c18SigKey][]byte{}, srSigs: map[c18SigKey][]byte{}}
+	var std [6]stded.PrivateKey
 	for i := range m.privs {
-		m.privs[i] = ed25519.NewKeyFromSeed(h.Expand(c.Seed^uint64(0x1000+i), 32))
-		m.pubs[i] = m.privs[i].Public().(ed25519.PublicKey)
+		std[i] = stded.NewKeyFromSeed(h.Expand(c.Seed^uint64(0x1000+i), 32))
+		m.privs[i] = ed25519.PrivateKey(append([]byte(nil), std[i]...)) // same 64-byte layout: seed || public key (RFC 8032)
+		m.pubs[i] = ed25519.PublicKey(append([]byte(nil), std[i][32:]...))
 	}
-	// key 6: a string that is not a point; key 7: the identity (small order)
+	// key 6: a string that is not a point (first y >= 2 off the curve, by the reference decoder); key 7: the identity (small order)
 	for y := byte(2); ; y++ {
 		cand := make([]byte, 32)
 		cand[0] = y
-		if _, err := ed25519.NewExpandedPublicKey(cand); err != nil {
+		if !ref.Decode(cand).OK {
 			m.pubs[6] = cand
 			break
 		}
@@ -361,31 +381,25 @@ func c18NewMat(c c18WCase) *c18Mat {
 		d := sha512.Sum512(m.msgs[i])
 		m.phs[i] = d[:]
 	}
-	for i := range m.srKP {
-		msk, err := sr25519.NewMiniSecretKeyFromBytes(h.Expand(c.Seed^uint64(0x3000+i), 32))
-		if err != nil {
-			panic(err)
-		}
-		if i == 0 {
-			m.srKP[i] = msk.ExpandEd25519().KeyPair()
-		} else {
-			m.srKP[i] = msk.ExpandUniform().KeyPair()
-		}
-		m.srPK[i] = m.srKP[i].PublicKey()
-	}
 	// signatures needed by the ops of this case
 	needEd := func(k, mi, variant int) {
 		key := c18SigKey{k, mi, variant}
 		if _, ok := m.sigs[key]; ok {
 			return
 		}
-		sig, err := m.privs[k].Sign(c18NewStream(1), m.msg(mi, variant), c18Opts(variant, 0, false, false))
+		so := &stded.Options{}
+		switch variant {
+		case 1:
+			so.Context = c18Ctx
+		case 2:
+			so.Hash, so.Context = crypto.SHA512, c18Ctx
+		}
+		sig, err := std[k].Sign(nil, m.msg(mi, variant), so)
 		if err != nil {
 			panic(err)
 		}
 		m.sigs[key] = sig
 	}
-	sctx := sr25519.NewSigningContext([]byte(c18Ctx))
 	for _, g := range c.G {
 		for _, op := range g {
 			switch op.Kind {
@@ -401,24 +415,50 @@ func c18NewMat(c c18WCase) *c18Mat {
 					needEd(c18SigningKey(e.K), (op.M+1)%4, op.Var)
 				}
 			case "srverify":
+				// placeholder (a well-formed but invalid signature); replaced by c18MatWarm in warm cases
 				for _, mi := range []int{op.M, (op.M + 1) % 4} {
-					key := c18SigKey{op.K % 2, mi, 0}
-					if _, ok := m.srSigs[key]; !ok {
-						sig, err := m.srKP[op.K%2].Sign(c18NewStream(c.Seed^0x77), sctx.NewTranscriptBytes(m.msgs[mi]))
-						if err != nil {
-							panic(err)
-						}
-						b, err := sig.MarshalBinary()
-						if err != nil {
-							panic(err)
-						}
-						m.srSigs[key] = b
-					}
+					b := h.Expand(c.Seed^uint64(0x5000+mi+4*(op.K%2)), 64)
+					b[31] &= 0x7f
+					b[63] = b[63]&0x0f | 0x80 // s < 2^252 and the schnorrkel marker bit
+					m.srSigs[c18SigKey{op.K % 2, mi, 0}] = b
 				}
 			}
 		}
 	}
 	return m
+}
+
+// srKeyPair derives sr25519 key pair i (only the library can do that).  Warm
+// cases derive both once, sequentially, and the goroutines share the KeyPair
+// objects; in cold cases every srsign/srverify op derives its own.
+func (m *c18Mat) srKeyPair(i int) *sr25519.KeyPair {
+	msk, err := sr25519.NewMiniSecretKeyFromBytes(h.Expand(m.seed^uint64(0x3000+i), 32))
+	if err != nil {
+		panic(err)
+	}
+	if i == 0 {
+		return msk.ExpandEd25519().KeyPair()
+	}
+	return msk.ExpandUniform().KeyPair()
+}
+
+func (m *c18Mat) warm(c c18WCase) {
+	for i := range m.srKP {
+		m.srKP[i] = m.srKeyPair(i)
+		m.srPK[i] = m.srKP[i].PublicKey()
+	}
+	sctx := sr25519.NewSigningContext([]byte(c18Ctx))
+	for key := range m.srSigs {
+		sig, err := m.srKP[key.K].Sign(c18NewStream(c.Seed^0x77), sctx.NewTranscriptBytes(m.msgs[key.M]))
+		if err != nil {
+			panic(err)
+		}
+		b, err := sig.MarshalBinary()
+		if err != nil {
+			panic(err)
+		}
+		m.srSigs[key] = b
+	}
 }
 
 // hostile key selectors (6, 7) have no private key: their "signatures" are key 0's.
@@ -574,7 +614,11 @@ func c18Exec(op c18Op, m *c18Mat, sh *c18Shared) []byte {
 		c.SetEdwardsPoint(&p)
 		return append([]byte(nil), c[:]...)
 	case "srsign":
-		sig, err := m.srKP[op.K%2].Sign(c18NewStream(m.seed^op.X^0x11), sh.sctx.NewTranscriptBytes(m.msgs[op.M]))
+		kp := m.srKP[op.K%2]
+		if kp == nil {
+			kp = m.srKeyPair(op.K % 2)
+		}
+		sig, err := kp.Sign(c18NewStream(m.seed^op.X^0x11), sh.sctx.NewTranscriptBytes(m.msgs[op.M]))
 		if err != nil {
 			return []byte("ERR")
 		}
@@ -589,7 +633,11 @@ func c18Exec(op c18Op, m *c18Mat, sh *c18Shared) []byte {
 		if err != nil {
 			return []byte("ERR-PARSE")
 		}
-		return c18Bool(m.srPK[op.K%2].Verify(sh.sctx.NewTranscriptBytes(m.msgs[op.M]), sig))
+		pk := m.srPK[op.K%2]
+		if pk == nil {
+			pk = m.srKeyPair(op.K % 2).PublicKey()
+		}
+		return c18Bool(pk.Verify(sh.sctx.NewTranscriptBytes(m.msgs[op.M]), sig))
 	case "h2c":
 		dst := []byte("c18-h2c-dst")
 		msg := m.msgs[op.M]
@@ -651,15 +699,24 @@ func TestC18ChildWorkload(t *testing.T) {
 		panic("c18 child: invalid case")
 	}
 	m := c18NewMat(c)
+	if !c.Cold {
+		m.warm(c)
+	}
 
 	// expected results: every op once, sequentially, with private "shared" instances
-	seqShared := c18NewShared(c, m)
-	want := make([][][]byte, len(c.G))
-	for g := range c.G {
-		want[g] = make([][]byte, len(c.G[g]))
-		for i, op := range c.G[g] {
-			want[g][i] = c18Exec(op, m, seqShared)
+	var want [][][]byte
+	sequential := func() {
+		seqShared := c18NewShared(c, m)
+		want = make([][][]byte, len(c.G))
+		for g := range c.G {
+			want[g] = make([][]byte, len(c.G[g]))
+			for i, op := range c.G[g] {
+				want[g][i] = c18Exec(op, m, seqShared)
+			}
 		}
+	}
+	if !c.Cold {
+		sequential()
 	}
 
 	rep := cache.C18Report{}
@@ -693,9 +750,12 @@ func TestC18ChildWorkload(t *testing.T) {
 			}(g)
 		}
 		wg.Wait()
+		if want == nil {
+			sequential() // cold case: the first concurrent run came first
+		}
 		for g := range c.G {
 			if panics[g] != "" {
-				rep.Viol = &cache.C18Viol{Sig: "api:panic-under-concurrency", Detail: fmt.Sprintf("repetition %d goroutine %d %s (the same op did not panic sequentially)", r, g, panics[g])}
+				rep.Viol = &cache.C18Viol{Sig: "api:panic-under-concurrency", Detail: fmt.Sprintf("repetition %d goroutine %d %s (the same op does not panic sequentially)", r, g, panics[g])}
 				break
 			}
 			for i := range c.G[g] {
@@ -714,7 +774,7 @@ func TestC18ChildWorkload(t *testing.T) {
 		par := false
 		for a := range c.G {
 			for b := a + 1; b < len(c.G); b++ {
-				if !t0[a].IsZero() && !t0[b].IsZero() && t0[a].Before(t1[b]) && t0[b].Before(t1[a]) {
+				if !t0[a].IsZero() && !t1[a].IsZero() && !t0[b].IsZero() && !t1[b].IsZero() && t0[a].Before(t1[b]) && t0[b].Before(t1[a]) {
 					par = true
 				}
 			}
